@@ -237,7 +237,7 @@ def record_repo_tests(rep) -> list[dict]:
     env = dict(os.environ, ACRYO_VERIF="1", ACRYO_TRACE=str(path), PYTHONPATH=str(engine.VERIF / "harness") + os.pathsep + str(engine.VERIF))
     cmd = [sys.executable, "-m", "pytest", "-q", "-p", "no:cacheprovider", "-p", "acryo_recorder", "--timeout=900", "-x", "-n", "8",
            "tests/test_alignment.py", "tests/test_batch.py", "tests/test_group.py", "tests/test_mock.py"]
-    p = subprocess.run(cmd, cwd="/repo", env=env, capture_output=True, text=True, timeout=3000)
+    p = subprocess.run(cmd, cwd=engine.repo_root(), env=env, capture_output=True, text=True, timeout=3000)
     rep.notes.append("repo tests under recorder: " + (p.stdout.strip().splitlines() or ["?"])[-1][:120])
     ev = []
     if path.exists():
